@@ -20,11 +20,18 @@ type vSink struct {
 	sticky  bool // every later call fails too
 	failed  bool
 	lastLen int
+	hookAt  int    // index of the Write call during which hook runs (before the bytes are taken); used only when hook != nil
+	hook    func() // stands for "another goroutine ran while this Write was in progress" (C13 instance isolation)
 }
 
 func (s *vSink) Write(p []byte) (int, error) {
 	i := s.n
 	s.n++
+	if s.hook != nil && vFork(i == s.hookAt) {
+		h := s.hook
+		s.hook = nil
+		h()
+	}
 	if i == s.failAt || (s.sticky && s.failed) {
 		first := !s.failed
 		s.failed = true
